@@ -5,7 +5,7 @@
 \* nested [*][last], last - 1 in both modes) and of calls that do not.
 \* With Hazard = "none" RetSolo and ObjImmutable hold; with the two hazard
 \* designs TLC must find a counterexample (the driver checks that it does).
-EXTENDS PathObject
+EXTENDS PathObject, PathPool, SequencesExt, Json
 
 D1 == VObj(<<[k |-> KA, v |-> VArr(<<VFlt(1), VFlt(2), VFlt(3)>>)]>>)                              \* {"a":[1,2,3]}
 D2 == VObj(<<[k |-> KA, v |-> VArr(<<VArr(<<VFlt(1)>>), VArr(<<VFlt(2), VFlt(3)>>)>>)]>>)          \* {"a":[[1],[2,3]]}
@@ -20,4 +20,27 @@ MCCalls ==
      [chain |-> P3, doc |-> D3, lax |-> TRUE],  [chain |-> P4, doc |-> D2, lax |-> FALSE],
      [chain |-> P5, doc |-> D2, lax |-> TRUE],  [chain |-> P1, doc |-> D3, lax |-> FALSE],
      [chain |-> P5, doc |-> D1, lax |-> FALSE], [chain |-> P2, doc |-> D1, lax |-> TRUE] >>
+
+(* --- the pool the real driver runs (exported) ----------------------------- *)
+(* every node kind and every consumer of an operand's status (PathPool), the *)
+(* chains of the step machine above, datetime methods, keyvalue ids          *)
+ObjExtra ==
+  { P1, P2, P3, P4, P5,
+    Rt(<<NAnyArr, NDT("datetime"), NMethod("string")>>), Rt(<<NAnyArr, NDT("date")>>),
+    Rt(<<NAnyArr, NFilter(NBin("lt", At(<<NDT("datetime")>>), <<NStr(<<50,48,49,54,45,48,49,45,48,49>>), NDT("datetime")>>))>>),
+    Rt(<<NAny(0, -1), NMethod("keyvalue")>>), Rt(<<NAnyArr, NMethod("keyvalue"), NKey(<<105,100>>)>>),
+    Rt(<<NAnyArr, NFilter(NRegex(At(<<>>), <<94,50>>, [NoFlags EXCEPT !.i = TRUE]))>>) }
+PathRows == SetToSeq({[pred |-> FALSE, chain |-> p] : p \in ExprPaths \cup ObjExtra} \cup {[pred |-> TRUE, chain |-> <<q>>] : q \in PredPaths})
+DocSeq == SetToSeq(
+  { D1, D2, D3,
+    VArr(<<VFlt(1), VFlt(2), VFlt(3)>>), VObj(<<[k |-> KA, v |-> VFlt(1)], [k |-> KB, v |-> VFlt(2)]>>),
+    VArr(<<VObj(<<[k |-> KA, v |-> VFlt(1)]>>), VObj(<<[k |-> KA, v |-> VStr(KX)]>>), VFlt(2)>>),
+    VObj(<<[k |-> KA, v |-> VArr(<<VFlt(1), VFlt(2)>>)], [k |-> KB, v |-> VFlt(0)]>>),
+    VArr(<<VArr(<<VObj(<<[k |-> KA, v |-> VFlt(1)]>>), VObj(<<[k |-> KA, v |-> VFlt(2)]>>)>>), VStr(KX)>>),
+    VArr(<<VStr(<<50,48,49,53,45,48,56,45,48,50>>), VStr(<<50,48,49,54,45,48,50,45,50,57,84,49,50,58,51,52,58,53,54>>), VStr(<<49,50,58,51,52,58,53,54,43,48,53,58,51,48>>), VStr(<<50,48,49,55,45,48,49,45,48,49,84,48,48,58,48,48,58,48,48,90>>)>>) })
+VarRow == [vars |-> <<[k |-> KX, v |-> VArr(<<VFlt(1), VFlt(2)>>)]>>]
+ASSUME ndJsonSerialize("paths.ndjson", PathRows)
+ASSUME ndJsonSerialize("docs.ndjson", [i \in 1..Len(DocSeq) |-> [doc |-> DocSeq[i]]])
+ASSUME ndJsonSerialize("vars.ndjson", <<VarRow>>)
+ASSUME PrintT(<<"UNIVERSE", Len(PathRows), Len(DocSeq)>>)
 =============================================================================
